@@ -83,7 +83,19 @@ def codec_checks(chk, rnd, tier):
                "HASH(%s,'sha1') AS h1, HASH(%s,'sha256') AS h256, HASH(%s,'sha512') AS h512, HASH(%s,'md5') AS hm, "
                "HASH(%s,'SHA256') AS h256b FROM dual") % ((vs,) * 12)
         reqs.append({"op": "query", "doc": {}, "sql": sql})
-    outs = run_go(reqs)
+    # the same process also sees HASH / ENCODE calls that FAIL (a value gob cannot encode) between the good ones:
+    # a digest must not depend on what was hashed, or failed to hash, before
+    mixed, good_idx = [], []
+    for i, r in enumerate(reqs):
+        if i % 2 == 1:
+            mixed.append({"op": "query", "doc": {"arr": [1, [2]], "o": {"k": 1}},
+                          "sql": rnd.choice(["SELECT HASH(arr,'sha256') AS v FROM dual", "SELECT HASH(o,'md5') AS v FROM dual",
+                                             "SELECT ENCODE(arr,'hex') AS v FROM dual"])})
+        good_idx.append(len(mixed))
+        mixed.append(r)
+    mouts = run_go(mixed)
+    outs = [mouts[i] for i in good_idx]
+    import hashlib
     lreqs, keep = [], []
     for v, o in zip(vals, outs):
         chk.count("codec:" + str(o.get("r")))
@@ -102,6 +114,17 @@ def codec_checks(chk, rnd, tier):
         if row["h256"] != row["h256b"]:
             chk.add_violation("hash-not-pure", {"value": v, "row": row})
             return
+        # HASH(v, alg) is alg over the very bytes ENCODE(v, 'hex') exposes (one gob stream of the value, nothing else)
+        try:
+            raw = bytes.fromhex(row["h"])
+        except ValueError:
+            chk.add_violation("encode-hex-not-hex", {"value": v, "row": row})
+            return
+        for k, alg in (("h1", "sha1"), ("h256", "sha256"), ("h512", "sha512"), ("hm", "md5")):
+            if hashlib.new(alg, raw).hexdigest() != row[k]:
+                chk.add_violation("hash-is-not-digest-of-encoding", {"value": v, "alg": alg, "row": row,
+                                                                     "expected": hashlib.new(alg, raw).hexdigest()})
+                return
         lreqs.append({"op": "codec", "hex": row["h"], "d32": row["b32"], "d64": row["b64"], "dhex": row["h"]})
         keep.append((v, row))
     louts = run_lean(lreqs)
